@@ -73,13 +73,31 @@ Section Generic.
          rewrite N.add_mod_idemp_l by discriminate; f_equal; lia.
   Qed.
 
+  (* GeneratePadding: as a sample of duration zero cut into n packets *)
+  Lemma step_pkts : forall s o,
+    let (s', pk) := step a rate s o in
+    length pk = s_npk (as_sample o) /\
+    st_seq a s' mod 65536 = (st_seq a s + s_dropped (as_sample o) + N.of_nat (s_npk (as_sample o))) mod 65536 /\
+    forall j p, nth_error pk j = Some p ->
+      k_ts p = sample_ts s (as_sample o) /\
+      k_seq p = (st_seq a s + 1 + s_dropped (as_sample o) + N.of_nat j) mod 65536.
+  Proof.
+    intros s [x|n]; cbn [step as_sample]; [exact (write_sample_pkts s x)|].
+    unfold gen_padding, sample_ts. cbn [s_dropped s_npk N.ltb N.compare].
+    pose proof (emit_spec (N.to_nat n) (st_seq a s) (st_ts a s)) as (Hlen & Hq & Hpk).
+    destruct (emit (N.to_nat n) (st_seq a s) (st_ts a s)) as [q2 pk]. cbn [fst snd st_seq] in *.
+    split; [exact Hlen|split].
+    - rewrite Hq. f_equal. lia.
+    - intros j p H. destruct (Hpk j p H) as [Hts Hseq]. split; [exact Hts|]. rewrite Hseq. f_equal. lia.
+  Qed.
+
   (* every packet of one sample carries the same timestamp *)
   Lemma same_ts : forall xs s k pk p p',
     nth_error (run a rate s xs) k = Some pk -> In p pk -> In p' pk -> k_ts p = k_ts p'.
   Proof.
     induction xs as [|x t IH]; intros s k pk p p' Hk Hp Hp'; [destruct k; discriminate|].
-    cbn [run] in Hk. pose proof (write_sample_pkts s x) as Hw.
-    destruct (write_sample a rate s x) as [s' pk0]. destruct k as [|k]; cbn [nth_error] in Hk.
+    cbn [run] in Hk. pose proof (step_pkts s x) as Hw.
+    destruct (step a rate s x) as [s' pk0]. destruct k as [|k]; cbn [nth_error] in Hk.
     - injection Hk as <-. destruct Hw as (_ & _ & Hpk).
       apply In_nth_error in Hp, Hp'. destruct Hp as [j Hj], Hp' as [j' Hj'].
       destruct (Hpk j p Hj) as [-> _]. destruct (Hpk j' p' Hj') as [-> _]. reflexivity.
@@ -90,19 +108,19 @@ Section Generic.
      sample reporting N dropped packets first skips N numbers *)
   Lemma seq_from : forall xs s k pk j p,
     nth_error (run a rate s xs) k = Some pk -> nth_error pk j = Some p ->
-    k_seq p = (st_seq a s + 1 + seq_before xs k + N.of_nat j) mod 65536 /\
-    (exists x, nth_error xs k = Some x /\ length pk = s_npk x).
+    k_seq p = (st_seq a s + 1 + seq_before (map as_sample xs) k + N.of_nat j) mod 65536 /\
+    (exists x, nth_error xs k = Some x /\ length pk = s_npk (as_sample x)).
   Proof.
     induction xs as [|x t IH]; intros s k pk j p Hk Hj; [destruct k; discriminate|].
-    cbn [run] in Hk. pose proof (write_sample_pkts s x) as Hw.
-    destruct (write_sample a rate s x) as [s' pk0]. destruct Hw as (Hlen & Hq & Hpk).
+    cbn [run] in Hk. pose proof (step_pkts s x) as Hw.
+    destruct (step a rate s x) as [s' pk0]. destruct Hw as (Hlen & Hq & Hpk).
     destruct k as [|k]; cbn [nth_error] in Hk.
     - injection Hk as <-. split; [|exists x; split; [reflexivity|exact Hlen]].
       destruct (Hpk j p Hj) as [_ ->]. unfold seq_before. cbn [firstn map fold_right nth_error]. f_equal; lia.
     - destruct (IH s' k pk j p Hk Hj) as [Hs Hx]. split; [|exact Hx].
       rewrite Hs. unfold seq_before. cbn [firstn map fold_right nth_error].
-      set (F := fold_right N.add 0 (map (fun x0 : sample => N.of_nat (s_npk x0) + s_dropped x0) (firstn k t))).
-      set (D := match nth_error t k with Some x0 => s_dropped x0 | None => 0 end).
+      set (F := fold_right N.add 0 (map (fun x0 : sample => N.of_nat (s_npk x0) + s_dropped x0) (firstn k (map as_sample t)))).
+      set (D := match nth_error (map as_sample t) k with Some x0 => s_dropped x0 | None => 0 end).
       replace (st_seq a s' + 1 + (F + D) + N.of_nat j) with (st_seq a s' + (1 + (F + D) + N.of_nat j)) by lia.
       rewrite <- N.add_mod_idemp_l by discriminate. rewrite Hq.
       rewrite N.add_mod_idemp_l by discriminate. f_equal. lia.
@@ -110,14 +128,15 @@ Section Generic.
 
   Lemma seq_numbers : forall ts0 seq0 xs k pk j p,
     nth_error (run a rate (init a ts0 seq0) xs) k = Some pk -> nth_error pk j = Some p ->
-    k_seq p = (seq0 + seq_before xs k + N.of_nat j) mod 65536 /\
-    (exists x, nth_error xs k = Some x /\ length pk = s_npk x).
+    k_seq p = (seq0 + seq_before (map as_sample xs) k + N.of_nat j) mod 65536 /\
+    (exists x, nth_error xs k = Some x /\ length pk = s_npk (as_sample x)).
   Proof.
     intros ts0 seq0 xs k pk j p Hk Hj. destruct (seq_from xs _ k pk j p Hk Hj) as [Hs Hx].
     split; [|exact Hx]. rewrite Hs. cbn [init st_seq]. unfold u16.
     rewrite <- !N.add_assoc, N.add_mod_idemp_l by discriminate.
-    replace (seq0 + 65535 + (1 + (seq_before xs k + N.of_nat j)))
-      with (seq0 + (seq_before xs k + N.of_nat j) + 1 * 65536) by lia.
+    set (SB := seq_before (map as_sample xs) k).
+    replace (seq0 + 65535 + (1 + (SB + N.of_nat j)))
+      with (seq0 + (SB + N.of_nat j) + 1 * 65536) by lia.
     now rewrite N.mod_add by discriminate.
   Qed.
 End Generic.
@@ -195,21 +214,40 @@ Proof.
       rewrite Z.add_mod_idemp_l by discriminate. f_equal. lia.
 Qed.
 
+(* a call is in range when the sample it stands for is (padding always is) *)
+Definition op_ok (rate : N) (o : op) : Prop := sample_ok rate (as_sample o).
+
+Lemma pad_ok : forall rate n, op_ok rate (OPad n).
+Proof. intros rate n. unfold op_ok, sample_ok, nt, giga. cbn [as_sample s_dur s_dropped]. lia. Qed.
+
+Lemma exact_step_op : forall rate ts0 s acc o,
+  inv rate ts0 s acc -> op_ok rate o ->
+  Z.of_N (sample_ts exact_arith rate s (as_sample o))
+    = (Z.of_N ts0 + (acc + nt rate (as_sample o) * Z.of_N (s_dropped (as_sample o))) / giga) mod 4294967296 /\
+  inv rate ts0 (fst (step exact_arith rate s o)) (acc + nt_full rate (as_sample o)).
+Proof.
+  intros rate ts0 s acc [x|n] Hinv Hok; cbn [step as_sample]; [exact (exact_step rate ts0 s acc x Hinv Hok)|].
+  unfold sample_ts, nt_full, nt, gen_padding. cbn [s_dur s_dropped N.ltb N.compare].
+  destruct (emit (N.to_nat n) (st_seq exact_arith s) (st_ts exact_arith s)) as [q2 pk2]. cbn [fst].
+  destruct Hinv as (Hacc & Hrem & Hts). rewrite !Z.mul_0_l, !Z.add_0_r.
+  split; [exact Hts|]. unfold inv. cbn [st_rem st_ts]. auto.
+Qed.
+
 Lemma no_drift_from : forall rate ts0 xs s acc k pk p,
-  inv rate ts0 s acc -> Forall (sample_ok rate) xs ->
+  inv rate ts0 s acc -> Forall (op_ok rate) xs ->
   nth_error (run exact_arith rate s xs) k = Some pk -> In p pk ->
-  Z.of_N (k_ts p) = (Z.of_N ts0 + (acc + nt_before rate xs k) / giga) mod 4294967296.
+  Z.of_N (k_ts p) = (Z.of_N ts0 + (acc + nt_before rate (map as_sample xs) k) / giga) mod 4294967296.
 Proof.
   intros rate ts0. induction xs as [|x t IH]; intros s acc k pk p Hinv Hok Hk Hp; [destruct k; discriminate|].
   inversion Hok as [|? ? Hx Ht]; subst.
-  destruct (exact_step rate ts0 s acc x Hinv Hx) as [Hts Hinv'].
-  cbn [run] in Hk. pose proof (write_sample_pkts exact_arith rate s x) as Hw.
-  destruct (write_sample exact_arith rate s x) as [s' pk0]. cbn [fst] in Hinv'.
+  destruct (exact_step_op rate ts0 s acc x Hinv Hx) as [Hts Hinv'].
+  cbn [run] in Hk. pose proof (step_pkts exact_arith rate s x) as Hw.
+  destruct (step exact_arith rate s x) as [s' pk0]. cbn [fst] in Hinv'.
   destruct k as [|k]; cbn [nth_error] in Hk.
   - injection Hk as <-. destruct Hw as (_ & _ & Hpk).
     apply In_nth_error in Hp. destruct Hp as [j Hj]. destruct (Hpk j p Hj) as [-> _].
     rewrite Hts. unfold nt_before. cbn [firstn map fold_right nth_error]. now rewrite Z.add_0_l.
-  - rewrite (IH s' (acc + nt_full rate x) k pk p Hinv' Ht Hk Hp).
+  - rewrite (IH s' (acc + nt_full rate (as_sample x)) k pk p Hinv' Ht Hk Hp).
     unfold nt_before. cbn [firstn map fold_right nth_error]. do 3 f_equal. lia.
 Qed.
 
@@ -220,9 +258,9 @@ Proof.
 Qed.
 
 Lemma no_drift : forall rate ts0 seq0 xs k pk p,
-  (ts0 < 4294967296)%N -> Forall (sample_ok rate) xs ->
+  (ts0 < 4294967296)%N -> Forall (op_ok rate) xs ->
   nth_error (run exact_arith rate (init exact_arith ts0 seq0) xs) k = Some pk -> In p pk ->
-  k_ts p = ideal_ts rate ts0 xs k.
+  k_ts p = ideal_ts rate ts0 (map as_sample xs) k.
 Proof.
   intros rate ts0 seq0 xs k pk p Hts Hok Hk Hp.
   pose proof (no_drift_from rate ts0 xs _ 0 k pk p (init_inv rate ts0 seq0 Hts) Hok Hk Hp) as H.
@@ -230,8 +268,8 @@ Proof.
 Qed.
 
 Lemma ex_30fps :
-  let xs := repeat (mkSample 33333333 0 2) 4 in
-  Forall (sample_ok 90000) xs /\
+  let xs := repeat (OSample (mkSample 33333333 0 2)) 4 in
+  Forall (op_ok 90000) xs /\
   map (map k_ts) (run exact_arith 90000 (init exact_arith 1000 65535) xs)
     = [[1000; 1000]; [3999; 3999]; [6999; 6999]; [9999; 9999]]%N /\
   map (map k_ts) (run float_arith 90000 (init float_arith 1000 65535) xs)
@@ -240,8 +278,8 @@ Lemma ex_30fps :
     = [[65535; 0]; [1; 2]; [3; 4]; [5; 6]]%N.
 Proof.
   cbn zeta. split; [|split; [|split]]; [|vm_compute; reflexivity..].
-  assert (Hok : sample_ok 90000 (mkSample 33333333 0 2)).
-  { unfold sample_ok, nt, giga. cbn [s_dur s_dropped]. lia. }
+  assert (Hok : op_ok 90000 (OSample (mkSample 33333333 0 2))).
+  { unfold op_ok, sample_ok, nt, giga. cbn [as_sample s_dur s_dropped]. lia. }
   cbn [repeat]. constructor; [exact Hok|]. constructor; [exact Hok|].
   constructor; [exact Hok|]. constructor; [exact Hok|]. constructor.
 Qed.
